@@ -8,15 +8,20 @@ from vf.xh import Ob
 LEVEL_KINDS = ("fn", "let", "class")
 
 
-def build(levels, defs, decl, names=("n",), place="module"):
+def build(levels, defs, decl, names=("n",), place="module", second="same"):
     """levels: kinds from outermost to innermost (an innermost function holding the declaration is added);
-    defs: tuple of bools, len(levels)+1: is the name defined at module level / at each level;
-    decl: 'nonlocal' | 'global' | None."""
+    defs: tuple, len(levels)+1: is the name defined at module level / at each level (0 | 1; for fn levels also
+    'N' = (nonlocal n) then assigned, 'G' = (global n) then assigned);
+    decl: 'nonlocal' | 'global' | None;  second: 'same' = a second name is defined wherever the first is,
+    'modonly' = the second name is defined at module level only."""
     c = Ctx()
     nm = names[0]
 
     def reads():
-        return ("try", ("E", c.sites(), nm), ("except", ("[", "NameError"), ("E", c.sites(), ("str", "unbound"))))
+        r = ("try", ("E", c.sites(), nm), ("except", ("[", "NameError"), ("E", c.sites(), ("str", "unbound"))))
+        if len(names) > 1:
+            return ("#(", r, ("try", ("E", c.sites(), names[1]), ("except", ("[", "NameError"), ("E", c.sites(), ("str", "unbound")))))
+        return r
 
     # innermost function
     body = []
@@ -35,9 +40,11 @@ def build(levels, defs, decl, names=("n",), place="module"):
         rname = "r%d" % depth
         if kind == "fn":
             b = []
+            if d in ("N", "G"):
+                b.append(({"N": "nonlocal", "G": "global"}[d], nm))
             if d:
                 b.append(("setv", nm, c.leaf("x")))
-                if len(names) > 1:
+                if len(names) > 1 and second == "same":
                     b.append(("setv", names[1], c.leaf("x")))
             b += forms
             b.append(("#(",) + tuple(results) + (reads(),))
@@ -45,7 +52,7 @@ def build(levels, defs, decl, names=("n",), place="module"):
             results = [rname]
         elif kind == "let":
             binds = ("[", nm, c.leaf("x")) if d else ("[", "zz%d" % depth, 0)
-            if d and len(names) > 1:
+            if d and len(names) > 1 and second == "same":
                 binds = binds + (names[1], c.leaf("x"))
             forms = [("setv", rname, ("let", binds) + tuple(forms) + (("#(",) + tuple(results) + (reads(),),))]
             results = [rname]
@@ -61,20 +68,31 @@ def build(levels, defs, decl, names=("n",), place="module"):
     top = []
     if defs[0]:
         top.append(("setv", nm, c.leaf("x")))
-        if len(names) > 1:
-            top.append(("setv", names[1], c.leaf("x")))
+    if len(names) > 1 and (defs[0] or second == "modonly"):
+        top.append(("setv", names[1], c.leaf("x")))
     prog = ("do",) + tuple(top) + tuple(forms) + (("#(",) + tuple(results) + (reads(),),)
     if place == "fn":
         return ("call", ("fn", ("[",), prog))
     return prog
 
 
-def has_binding(levels, defs, decl):
-    """Does Python/Hy accept the declaration?  nonlocal needs a binding in an enclosing function or let (a let at module
-    level is a module variable), or at module level (then it means global)."""
-    if decl != "nonlocal":
+def resolvable(levels, defs, i):
+    """Is there a binding that a nonlocal declared in the function at level index i (len(levels) = the innermost
+    function) can refer to?  A module-level variable counts (the declaration then means global); class bodies never do.
+    -> True | False | None (None: the nearest candidate is a function that declared the name global, and either no
+    module-level assignment is visible at compile time or another binding lies further out: not documented, skipped)"""
+    for j in range(i - 1, -1, -1):
+        k, d = levels[j], defs[j + 1]
+        if k == "class" or not d:
+            continue
+        if d == "G":
+            # that function's n is the module variable; if a let/function binding lies further out, which of the
+            # two "nearest" means is not documented
+            if any(defs[m + 1] and levels[m] != "class" for m in range(j)) or not defs[0]:
+                return None
+            return True
         return True
-    return any(defs)
+    return bool(defs[0])
 
 
 def skeletons(tier):
@@ -83,26 +101,35 @@ def skeletons(tier):
     n = 0
     for d in range(0, maxd + 1):
         for levels in itertools.product(LEVEL_KINDS, repeat=d):
-            for defs in itertools.product((False, True), repeat=d + 1):
+            for defs in itertools.product(*([(0, 1)] + [((0, 1, "N", "G") if k == "fn" else (0, 1)) for k in levels])):
+                ok = True
+                for i, st in enumerate(defs[1:]):
+                    if st == "N" and resolvable(levels, defs, i) is not True:
+                        ok = False
+                if not ok:
+                    continue
                 for decl in ("nonlocal", "global", None):
-                    if not has_binding(levels, defs, decl):
-                        continue
-                    # a class level cannot bind for nested scopes: if the only definition is in a class, nonlocal has no binding
-                    if decl == "nonlocal" and not any(defs[i + 1] for i, k in enumerate(levels) if k != "class") and not defs[0]:
+                    if decl == "nonlocal" and resolvable(levels, defs, len(levels)) is not True:
                         continue
                     if "let" in levels and "class" in levels[levels.index("let"):]:
                         continue  # what a class-body assignment to a let-bound name means is not documented
-                    if decl == "nonlocal" and any(defs[i + 1] for i, k in enumerate(levels) if k == "class"):
-                        continue  # a class attribute named like the nonlocal name: Python has no rule for it (nonlocal never sees class scope)
                     n += 1
-                    if d == 3 and n % 5:
+                    plain = all(st in (0, 1) for st in defs)
+                    if d == 2 and tier == "quick" and not plain and n % 2:
                         continue
-                    out.append(("module:%s/defs=%s/%s" % (">".join(levels) or "-", "".join("1" if x else "0" for x in defs), decl), build(levels, defs, decl)))
-                    if n % 4 == 0:
-                        out.append(("fn:%s/defs=%s/%s" % (">".join(levels) or "-", "".join("1" if x else "0" for x in defs), decl), build(levels, defs, decl, place="fn")))
+                    if d == 3 and n % (5 if plain else 23):
+                        continue
+                    tag = "%s/defs=%s/%s" % (">".join(levels) or "-", "".join(str(int(x)) if x in (0, 1) else x for x in defs), decl)
+                    out.append(("module:" + tag, build(levels, defs, decl)))
+                    if n % 4 == 0 and "G" not in defs:
+                        # (inside a wrapping function the outermost n is a function variable; with a level that
+                        # declares n global, whether an inner nonlocal means the module's n or that variable is not documented)
+                        out.append(("fn:" + tag, build(levels, defs, decl, place="fn")))
                     if n % 6 == 0 and decl:
-                        out.append(("module-2names:%s/defs=%s/%s" % (">".join(levels) or "-", "".join("1" if x else "0" for x in defs), decl),
-                                    build(levels, defs, decl, names=("n", "m2"))))
+                        out.append(("module-2names:" + tag, build(levels, defs, decl, names=("n", "m2"))))
+                    if n % 3 == 0 and decl == "nonlocal" and d >= 1 and plain:
+                        # one declaration that mixes a name bound in an enclosing function/let with a module-level name
+                        out.append(("module-mixed:" + tag, build(levels, defs, decl, names=("n", "m2"), second="modonly")))
     return out
 
 
@@ -167,9 +194,9 @@ def spec(tier, seed):
             "hy.scoping: OuterVar, ResolveOuterVars, ScopeFn/ScopeLet/ScopeGlobal.define_nonlocal, nearest_python_scope",
         ],
         "bounds": "nestings of depth 0..%d over {fn, let, class} plus the innermost declaring function; the name defined at every subset of levels (module included); "
-                  "declaration nonlocal / global / none, one or two names; module level and (sampled) inside a function; depth 3 sampled every 5th; every assigned value a symbolic int; "
+                  "fn levels may themselves declare the name nonlocal or global before assigning it; innermost declaration nonlocal / global / none, one or two names (second name defined at the same levels, or at module level only); module level and (sampled) inside a function; depth 3 sampled every 5th; every assigned value a symbolic int; "
                   "plus %d declared-after-use programs that must be syntax errors" % (2 if tier == "quick" else 3, len(SYNTAX_ERROR_CASES)),
-        "outside": "nestings containing a class level are run natively on pairwise distinct concrete values (grade D, group class-concrete), not symbolically; depth 4; declarations in non-innermost scopes; nonlocal inside class bodies or comprehensions",
+        "outside": "nestings containing a class level are run natively on pairwise distinct concrete values (grade D, group class-concrete), not symbolically; depth 4; nonlocal inside class bodies or comprehensions; a nonlocal whose nearest candidate is a function that declared the name global while the module never assigns it",
         "stubs": ["crosshair.util.getsourcelines wrapper for .hy-defined callees"],
         "assumptions": ["oracle = vf/refsem.py: let removed by alpha-renaming; nonlocal = nearest enclosing function variable, else the module variable (documented: compiles to global); "
                         "global = module variable; class bodies are not enclosing scopes for nested functions (Python's rule)"],
